@@ -1,10 +1,106 @@
 #!/usr/bin/env python3
 """C18 — path canonicalisation: exhaustive enumeration of all strings up to a length bound
 over small alphabets, real canonicalize_name()/is_filename_sane() vs an independent spec."""
-import os, sys, json, subprocess
+import os, sys, json, subprocess, itertools, tempfile, shutil
 sys.path.insert(0, os.path.dirname(os.path.dirname(os.path.abspath(__file__))))
 from vlib.common import *
-from vlib import build
+from vlib import build, packcheck, sqfsck, tarmk, tarcases
+
+FT = {}
+FSCR = None
+
+
+def spec_canon(s):
+    """independent specification: None if a component is '..', else the clean relative form"""
+    parts = [p for p in s.split(b"/") if p not in (b"", b".")]
+    if b".." in parts:
+        return None
+    return b"/".join(parts)
+
+
+def spellings(maxlen):
+    good, bad = [], []
+    for n in range(1, maxlen + 1):
+        for t in itertools.product(b"df./", repeat=n):
+            s = bytes(t)
+            c = spec_canon(s)
+            if c == b"d/f":
+                good.append(s)
+            elif c is None and spec_canon(s.replace(b"..", b".")) in (b"d/f", b"d", b"f") and s.count(b"..") == 1 and b"..." not in s:
+                bad.append(s)
+    return good, bad
+
+
+def funnel_case(a):
+    """one spelling through every place where the tools take a path from outside"""
+    sp, good = a
+    wd = tempfile.mkdtemp(prefix="f", dir=FSCR)
+    out = []
+    try:
+        sps = os.fsdecode(sp)
+        os.makedirs(os.path.join(wd, "in", "d"))
+        open(os.path.join(wd, "in", "d", "f"), "wb").write(b"the file d/f\n")
+        base = os.path.join(wd, "base.sqfs")
+
+        def gen(listing, img):
+            lf = os.path.join(wd, "list.txt")
+            open(lf, "wb").write(listing)
+            if os.path.exists(img):
+                os.unlink(img)
+            return run_tool([FT["gensquashfs"], "-q", "-c", "gzip", "-b", "4096", "-F", lf, "-D", os.path.join(wd, "in"), img], timeout=30)
+
+        def linked(img, a_, b_):
+            im, err = packcheck.decode(img)
+            if im is None:
+                return "undecodable: %s" % err
+            if a_ not in im.tree or b_ not in im.tree:
+                return "entry missing: %r" % sorted(im.tree)[:6]
+            return None if im.tree[a_]["ino"] == im.tree[b_]["ino"] else "%r and %r are different inodes" % (a_, b_)
+
+        def judge(name, r, extra_ok=None):
+            if r.crashed or r.timeout:
+                out.append((name, "crash", r.err.decode("latin1")[-600:]))
+            elif good and r.rc != 0:
+                out.append((name, "refused", r.err.decode("latin1")[-200:]))
+            elif not good and r.rc == 0:
+                out.append((name, "accepted-dotdot", ""))
+            elif good and extra_ok is not None:
+                why = extra_ok()
+                if why:
+                    out.append((name, "wrong-entry", why))
+        r0 = gen(b"dir /d 0755 0 0\nfile /d/f 0644 0 0 d/f\n", base)
+        if r0.rc != 0:
+            raise RuntimeError("cannot build the funnel base image: %s" % r0.err[-200:])
+        q = b'"' + sp.replace(b"\\", b"\\\\") + b'"'
+        # 1. pack file: hard link target, entry path
+        img = os.path.join(wd, "o.sqfs")
+        r = gen(b"dir /d 0755 0 0\nfile /d/f 0644 0 0 d/f\nlink /l 0777 0 0 " + q + b"\n", img)
+        judge("gensquashfs link target", r, lambda: linked(img, b"l", b"d/f"))
+        r = gen(b"file " + q + b" 0644 0 0 d/f\n", img)
+        judge("gensquashfs entry path", r, lambda: None if (packcheck.decode(img)[0] is not None and b"d/f" in packcheck.decode(img)[0].tree) else "entry not at d/f")
+        # 2. tar: hard link target, member name
+        TE = tarcases.E
+        for what, ents in (("tar2sqfs link target", [TE(b"d", "dir"), TE(b"d/f", "file", content=b"x"), TE(b"l", "link", target=sp)]),
+                           ("tar2sqfs member name", [TE(sp, "file", content=b"x")])):
+            try:
+                data = tarmk.archive(ents, "gnu")
+            except ValueError:
+                continue
+            if os.path.exists(img):
+                os.unlink(img)
+            r = run_tool([FT["tar2sqfs"], "-q", "-c", "gzip", img], stdin=data, timeout=30)
+            if what.endswith("target"):
+                judge(what, r, lambda: linked(img, b"l", b"d/f"))
+            else:
+                judge(what, r, lambda: None if (packcheck.decode(img)[0] is not None and b"d/f" in packcheck.decode(img)[0].tree) else "member not at d/f")
+        # 3. command line paths of the readers
+        r = run_tool([FT["rdsquashfs"], "-c", sps, base], timeout=30)
+        judge("rdsquashfs --cat path", r, lambda: None if r.out == b"the file d/f\n" else "other content: %r" % r.out[:40])
+        r = run_tool([FT["rdsquashfs"], "-s", sps, base], timeout=30)
+        judge("rdsquashfs --stat path", r, lambda: None if b"Size: 13" in r.out or b"13" in r.out else "stat of another entry: %r" % r.out[:120])
+        return sp, good, out
+    finally:
+        shutil.rmtree(wd, ignore_errors=True)
 
 
 def run_cfg(a):
@@ -14,6 +110,7 @@ def run_cfg(a):
 
 
 def main():
+    global FSCR
     cr = CheckRun("C18", "exploration", default_budget=(120, 900))
     with build.Scratch("C18") as sd:
         v = build.variant("asan")
@@ -24,6 +121,12 @@ def main():
         build._cc(["clang"] + v.cflags + build.base_cppflags(v) + srcs + ["-o", exe] + v.ldflags)
         if cr.replay:
             d = json.load(open(os.path.join(cr.replay, "case.json")))
+            if d.get("funnel"):
+                FSCR = sd
+                FT.update(build.build_tools(v, os.path.join(sd, "bin"), tools=["gensquashfs", "tar2sqfs", "rdsquashfs"]))
+                packcheck.TOOLS.update(FT)
+                print(funnel_case((d["spelling"].encode("latin1"), d["good"])))
+                return 1
             r = run_tool([exe] + d["argv"], timeout=3000)
             print(r.out.decode(), r.err.decode()[-2000:])
             return 1 if (r.rc != 0) else 0
@@ -54,6 +157,22 @@ def main():
                 cr.violation("C18|%s" % fb["why"], "%d mismatching strings; first: %s" % (j["mismatches"], json.dumps(fb)),
                              files={"case.json": json.dumps({"argv": argv, "first_bad": fb})},
                              replay_sh="python3 /verif/checks/C18.py --replay .")
+        # ---- the funnel: every spelling of one path through every place where a tool takes a path from outside
+        FSCR = sd
+        FT.update(build.build_tools(v, os.path.join(sd, "bin"), tools=["gensquashfs", "tar2sqfs", "rdsquashfs"]))
+        packcheck.TOOLS.update(FT)
+        good, bad = spellings(6 if cr.quick else 8)
+        fres = pmap(funnel_case, [(s_, True) for s_ in good] + [(s_, False) for s_ in bad])
+        n_funnel = 0
+        for sp, is_good, probs in fres:
+            n_funnel += 1
+            for name, kind, why in probs:
+                cr.violation("C18|funnel|%s|%s" % (name, kind), "spelling %r (%s) through %s: %s %s" % (
+                    sp, "names d/f, no '..' component" if is_good else "contains a '..' component", name, kind, why),
+                    files={"case.json": json.dumps({"funnel": True, "spelling": sp.decode("latin1"), "good": is_good})},
+                    replay_sh="python3 /verif/checks/C18.py --replay .")
+        cr.coverage["funnel_spellings"] = {"clean_equivalents": len(good), "with_dotdot": len(bad), "funnels": 6}
+        tot["evaluations"] += n_funnel
         cr.coverage.update(evaluations=tot["evaluations"],
                            distinct_nontrivial=tot["refused"] + tot["rewritten"],
                            refused=tot["refused"], rewritten=tot["rewritten"], unchanged=tot["unchanged"],
@@ -62,7 +181,9 @@ def main():
                                 "when the implementation had to act: it refused the string or rewrote it (input != output). "
                                 "Checked per string: return value and buffer == independent specification, no write outside "
                                 "[start, original terminator] (guard bytes + ASan), output clean, idempotent, "
-                                "is_filename_sane(s,0/1) == (s not in {'.','..'} and '/' not in s).")
+                                "is_filename_sane(s,0/1) == (s not in {'.','..'} and '/' not in s). Funnel: every string over {d,f,.,/} up to length 6 (quick) / 8 whose clean form is d/f, and those "
+                                "with one '..' component, as gensquashfs link target and entry path, tar2sqfs link target and member name, rdsquashfs --cat / --stat path: accepted and resolving "
+                                "to d/f, or refused, exactly as the specification says.")
         cr.assumptions += ["non-Windows build of filename_sane.c (as configured in /repo)",
                            "strings contain no NUL (C strings)"]
     return cr.finish()
